@@ -49,6 +49,9 @@ func TestMain(m *testing.M) {
 		}
 	}
 	if *flagStats != "" {
+		if os.Getenv("VERIF_FUZZ_FAILDIR") != "" { // one statistics file per fuzz process
+			*flagStats = fmt.Sprintf("%s.%d", *flagStats, os.Getpid())
+		}
 		if err := stats.write(*flagStats, fails); err != nil {
 			fmt.Fprintln(os.Stderr, "cannot write stats:", err)
 			if code == 0 {
